@@ -118,10 +118,11 @@ W.contract(
     ],
     ensures_names=["stack-shrinks-by-popped", "retain-pushes-back", "inputs-advance", "flag-restored", "result-items", "result-length", "scopes-kept"],
     modifies=["iterable_object", "ctx.inputs", "ctx.use_top_input"],
-    fuel=1,
+    fuel=0,
     loops={
         0: dict(
             types={"popped_items": SEQ(VAL)},
+            hints_init=["unfold(revv(S0[len(S0):]))", "unfold(reads(ins0, top0, 0))", "unfold(after_reads(ins0, top0, 0))"],
             inv=[
                 "iterable_object == S0[:len(S0) - min(_k, len(S0))]",
                 "popped_items == revv(S0[len(S0) - min(_k, len(S0)):]) + reads(ins0, top0, _k - min(_k, len(S0)))",
@@ -132,6 +133,8 @@ W.contract(
                 "len(ctx.inputs) == len(ins0)",
             ],
             hints_end=["unfold(revv(S0[len(S0) - min(_k, len(S0)):]))", "unfold(reads(ins0, top0, _k - min(_k, len(S0))))", "unfold(after_reads(ins0, top0, _k - min(_k, len(S0))))"],
+            asserts_end=["implies(_k <= len(S0) and _k >= 1, S0[len(S0) - _k:][1:] == S0[len(S0) - (_k - 1):])",
+                         "implies(_k <= len(S0) and _k >= 1, S0[len(S0) - _k:][0] == S0[len(S0) - _k])"],
         ),
         1: dict(
             entry={"base": "iterable_object", "rp": "popped_items[::-1]"},
